@@ -61,7 +61,12 @@ def _cases(shard):
                    op('discard', K, boom), op('pop'), op('in', K, boom), op('update', st.lists(K, max_size=5)),
                    op('ior', st.lists(K, max_size=5)), op('iand', st.lists(K, max_size=8)),
                    op('isub', st.lists(K, max_size=5)), op('ixor', st.lists(K, max_size=5))]
-        ops += [op('keys', st.one_of(st.none(), K), st.one_of(st.none(), K), boom), op('minKey', st.one_of(st.none(), K), boom),
+        ops += [op('keys', st.one_of(st.none(), K), st.one_of(st.none(), K), boom),
+                op('keysx', st.one_of(st.none(), st.none(), K), st.one_of(st.none(), st.none(), K), st.booleans(), st.booleans(),
+                   st.sampled_from(['keys'] + (['values', 'items'] if is_map else []))),
+                op('keysx', st.one_of(st.none(), st.none(), K), st.one_of(st.none(), st.none(), K), st.booleans(), st.booleans(),
+                   st.sampled_from(['keys'] + (['values', 'items'] if is_map else []))),
+                op('minKey', st.one_of(st.none(), K), boom),
                 op('maxKey', st.one_of(st.none(), K), boom), op('cursor', st.sampled_from(['iter', 'keys'] + (['items', 'values'] if is_map else [])), st.integers(0, 6)),
                 op('algebra', st.sampled_from(['union', 'intersection', 'difference']), st.lists(K, max_size=8),
                    st.sampled_from(['Set', 'TreeSet', 'list'] + (['Bucket', 'BTree'] if is_map else [])), boom),
@@ -85,6 +90,23 @@ def run_shard(shard, ctx):
 
 def replay(case, ctx):
     run_case(case, ctx)
+
+
+READONLY = ('get', 'in', 'keys', 'keysx', 'minKey', 'maxKey', 'cursor', 'values', 'items', 'pickle')
+
+
+def _node_refs(t, w):
+    """[(description, refcount)] of every node of the container (leaves through the chain)"""
+    out = []
+    if not w.is_tree:
+        return [('self', sys.getrefcount(t))]
+    b = t._firstbucket
+    i = 0
+    while b is not None and i < 200:
+        out.append(('leaf%d' % i, sys.getrefcount(b)))
+        b = b._next
+        i += 1
+    return out
 
 
 class World:
@@ -152,6 +174,10 @@ def run_case(case, ctx):
             name = op[0]
             sig = {'kind': kind, 'fam': fam, 'op': name}
             desc = 'step %d %r on %s%s(c, sizes %s)' % (i, op, fam, kind, cfg.get('sizes'))
+            readonly = name in READONLY
+            if readonly:
+                gc.collect()
+            nodes_before = _node_refs(t, w) if readonly else None
             try:
                 _step(w, t, klass, op, alive, stats, classes)
             except Violation:
@@ -164,7 +190,15 @@ def run_case(case, ctx):
             finally:
                 P.arm(False)
             # drop everything temporary, then audit
-            sys.exc_info()
+            if readonly:
+                gc.collect()
+                nodes_after = _node_refs(t, w)
+                if nodes_after != nodes_before:
+                    diff = [(a[0], a[1], b[1]) for a, b in zip(nodes_before, nodes_after) if a != b][:4]
+                    ctx.mismatch('%s: a read-only call changed the reference counts of the container\'s nodes: %s '
+                                 '(node, before, after)' % (desc, diff), dict(sig, what='node-refcount'), recoverable=False)
+                del nodes_after
+            del nodes_before
             w.intent = None
             conts = [(t, w.is_map, w.is_tree)] + [(o, m, tr) for o, m, tr in alive]
             bad = refs.audit(w.registry, conts, w.extra())
@@ -363,6 +397,14 @@ def _step(w, t, klass, op, alive, stats, classes):
         b = w.K(op[2]) if op[2] is not None else None
         _arm(op[3] if w.okey else 0)
         r = list(t.keys(a, b))
+        del r
+    elif name == 'keysx':
+        a = w.K(op[1]) if op[1] is not None else None
+        b = w.K(op[2]) if op[2] is not None else None
+        r = getattr(t, op[5])(a, b, op[3], op[4])
+        n = len(r)
+        if n:
+            r[0], r[-1]
         del r
     elif name in ('minKey', 'maxKey'):
         b = w.K(op[1]) if op[1] is not None else None
